@@ -115,6 +115,7 @@ type ctxKey string
 //	2: prefix filter over {red, green, grey} on the partial word
 //	3: echoes the number of previous args: "n<k>"
 //	4: by target: bash -> "b-item", zsh -> "z-item"
+//
 //go:noinline
 func valueFn(id int) func(target, partial string) []string {
 	switch id {
